@@ -137,15 +137,25 @@ def go_build(which):
                cwd=HARNESS, env=goenv(), timeout=900)
 
 
-def step_gen():
-    """Translator: regenerate coq/gen/*.v from /repo. Returns (ok, text)."""
-    rc, out = go_build("j5gen")
-    if rc != 0:
-        return False, "building the translator failed:\n" + out
+def all_cmds(prefix):
+    return sorted(os.path.basename(p) for p in glob.glob(os.path.join(HARNESS, "cmd", prefix + "*")) if os.path.isdir(p))
+
+
+def step_gen(gens):
+    """Translators: regenerate coq/gen/*.v from /repo. Returns (ok, text)."""
     os.makedirs(os.path.join(COQ, "gen"), exist_ok=True)
-    rc, out = run([os.path.join(BIN, "j5gen"), "-repo", REPO, "-out", os.path.join(COQ, "gen")],
-                  env=goenv(), timeout=600)
-    return rc == 0, out
+    ok, text = True, []
+    for g in gens:
+        rc, out = go_build(g)
+        if rc != 0:
+            ok = False
+            text.append("building translator %s failed:\n%s" % (g, out))
+            continue
+        rc, out = run([os.path.join(BIN, g), "-repo", REPO, "-out", os.path.join(COQ, "gen")],
+                      env=goenv(), timeout=600)
+        text.append("%s: %s" % (g, out.strip()))
+        ok = ok and rc == 0
+    return ok, "\n".join(text)
 
 
 def step_make(targets, timeout=3000):
@@ -243,7 +253,7 @@ def write_replay(prop, payload):
 
 def harness_run(prop, tier, seed, outdir, n=0, timeout=3000, mult=1):
     os.makedirs(outdir, exist_ok=True)
-    cmd = [os.path.join(BIN, "j5run"), "-prop", prop, "-tier", tier, "-seed", str(seed), "-out", outdir]
+    cmd = [os.path.join(BIN, PROPS[prop]["runner"]), "-prop", prop, "-tier", tier, "-seed", str(seed), "-out", outdir]
     if n:
         cmd += ["-n", str(n)]
     if mult and mult != 1:
@@ -288,9 +298,9 @@ def check_property(prop, tier, seed, replay=None):
         if gate:
             broken.append(("gate", "source gate", "\n".join(gate)))
         with Lock():
-            ok, gen_out = step_gen()
+            ok, gen_out = step_gen(cfg.get("gens", []))
             if not ok:
-                broken.append(("translator", "j5gen", gen_out[-3000:]))
+                broken.append(("translator", " ".join(cfg.get("gens", [])), gen_out[-3000:]))
             rc, make_out = step_make(cfg["coq_targets"])
             if rc != 0:
                 errs = re.findall(r'File "\./([^"]+)", line (\d+)[^\n]*\n((?:.*\n){0,6})', make_out)
@@ -304,7 +314,7 @@ def check_property(prop, tier, seed, replay=None):
                     broken.append(("proof", cfg["props_file"], pa_out[-2000:]))
                 else:
                     discharged = len(obligations)
-            rcb, build_out = go_build("j5run")
+            rcb, build_out = go_build(cfg["runner"])
         if rcb != 0:
             broken.append(("tie", "harness build against /repo (-tags verif)", build_out[-3000:]))
         else:
@@ -437,7 +447,7 @@ def check_property(prop, tier, seed, replay=None):
 def do_setup():
     t0 = time.time()
     with Lock():
-        ok, out = step_gen()
+        ok, out = step_gen(all_cmds("gen_"))
         print(out)
         if not ok:
             print("translator failed")
@@ -447,11 +457,12 @@ def do_setup():
         if rc != 0:
             print("coq build failed")
             return 1
-        rc, out = go_build("j5run")
-        print(out)
-        if rc != 0:
-            print("harness build failed")
-            return 1
+        for r in all_cmds("run_"):
+            rc, out = go_build(r)
+            print(r, out)
+            if rc != 0:
+                print("harness build failed")
+                return 1
     gate = source_gate()
     if gate:
         print("source gate:\n" + "\n".join(gate))
